@@ -21,12 +21,11 @@
     src/uint/boxed/bits.rs        set_bit_vartime (after fix d309eb6)
     src/uint/encoding/der.rs      the fixed-size copy of a DER INTEGER (after fix 6217c78, and before)
     src/uint/boxed/encoding.rs    from_be_hex length assertion; src/uint/boxed.rs widen / shorten
-    src/uint/inv_mod.rs           `expect("inverse mod 2^k exists")`, `expect("shift within range")`
+    src/uint/inv_mod.rs           `expect("inverse mod 2^k exists")`, `expect("shift within range")` (before be88d84 / 8dd1192, and after)
   Core Lean only.
 -/
 import CB.Model.DivLimb
 import CB.Model.Bits
-import CB.Model.InvMod2k
 import CB.Model.ModArith
 namespace CB.Panic
 open CB CB.Div
@@ -108,6 +107,47 @@ def fromWordLeD (p : Profile) (x y : Nat) : Chk Nat :=
   fromWordLsbD p ((((wnot x) ||| y) &&& ((x ^^^ y) ||| wnot (wsub y x))) / HALF)
 
 /-! ### src/uint/div_limb.rs -/
+
+/-- `reciprocal(d)` (64-bit body): the Newton iteration is written with PLAIN `+ - *` on `u64`
+    (only the last steps use `wrapping_*`), plus two debug assertions.  Shifts by constants `<<` do not
+    trap (only the shift AMOUNT is checked).  `short_div` works on constants and a 9-bit value. -/
+def reciprocalD (p : Profile) (d : Nat) : Chk Nat := do
+  dassert p (decide (HALF ≤ d)) "reciprocal: d >= 1 << 63"
+  let d0 := d &&& 1
+  let d9 := d >>> 55
+  let d40 ← addW p (d >>> 24) 1
+  let d63 ← addW p (d >>> 1) d0
+  let v0 := shortDiv recipV0Dividend 19 (d9 % U32) 9
+  -- let v1 = (v0 << 11) - ((v0 * v0 * d40) >> 40) - 1;
+  let v0v0 ← mulW p v0 v0
+  let v0v0d ← mulW p v0v0 d40
+  let t1 ← subW p ((v0 <<< 11) % B) (v0v0d >>> 40)
+  let v1 ← subW p t1 1
+  -- let v2 = (v1 << 13) + ((v1 * ((1 << 60) - v1 * d40)) >> 47);
+  let v1d ← mulW p v1 d40
+  let t2 ← subW p (1 <<< 60) v1d
+  let t3 ← mulW p v1 t2
+  let v2 ← addW p ((v1 <<< 13) % B) (t3 >>> 47)
+  dassert p ((mulhilo v2 d63).1 == (1 <<< 32) - 1) "reciprocal: mulhilo(v2, d63).0 == (1 << 32) - 1"
+  -- let e = Word::MAX - v2.wrapping_mul(d63) + 1 + (v2 >> 1) * d0;
+  let e1 ← subW p WMAX (wmul v2 d63)
+  let e2 ← addW p e1 1
+  let e3 ← mulW p (v2 >>> 1) d0
+  let e ← addW p e2 e3
+  let hi := (mulhilo v2 e).1
+  let v3 := wadd ((v2 <<< 31) % B) (hi >>> 1)
+  let x := wadd v3 1
+  let hi2 := (mulhilo x d).1
+  let nz ← fromWordNonzeroD p x
+  let hi3 := selectWord d hi2 nz
+  pure (wsub (wsub v3 hi3) d)
+
+/-- `Reciprocal::new(divisor)`: `divisor.0 << shift` with `shift = leading_zeros` (`< 64` for a non-zero divisor) -/
+def reciprocalNewD (p : Profile) (divisor : Nat) : Chk Reciprocal := do
+  let shift := leadingZeros divisor
+  let dn ← shlW p divisor shift
+  let r ← reciprocalD p dn
+  pure { divisorNormalized := dn, shift := shift, reciprocal := r }
 
 /-- `div2by1` with its three debug assertions; the masked corrections are computed on both sides,
     with `wrapping_*` as in the source. -/
@@ -363,25 +403,50 @@ def boxedDivRemPrecisionD (selfLimbs rhsLimbs : Nat) : Chk Unit :=
 def radixEncodeNonEmptyD (p : Profile) (nlimbs : Nat) : Chk Unit :=
   dassert p (nlimbs != 0) "radix encode: empty limbs"
 
-/-! ### src/uint/inv_mod.rs -/
+/-! ### src/uint/inv_mod.rs, src/uint/boxed/inv_mod.rs -/
 
-/-- panic class of `Uint::inv_mod2k_vartime(k)` at width `w`: the
-    `overflowing_shl_vartime(i).expect("shift within range")` of round `i` -/
-def invMod2kVartimeD (w a k : Nat) : Chk Unit :=
-  match InvMod2k.invMod2kVartime w a k with
-  | some _ => .ok ()
-  | none => .error "shift within range"
+/-- `Uint::trailing_zeros` on a `w`-bit value (`w` for 0) -/
+def tzW : Nat → Nat → Nat
+  | 0, _ => 0
+  | fuel + 1, x => if x % 2 = 1 then 0 else 1 + tzW fuel (x / 2)
 
-/-- panic class of `Uint::inv_mod(self, modulus)`: `s.inv_mod2k(k).expect("inverse mod 2^k exists")`
-    (the value of the odd-part inverse plays no role for the panic class) -/
-def invModD (w a m : Nat) : Chk Unit :=
-  match InvMod2k.invModWith (fun _ _ => none) w a m with
-  | .panic => .error "inverse mod 2^k exists"
-  | _ => .ok ()
+/-- `Uint::inv_mod(self, modulus)` BEFORE fix be88d84: with `k = modulus.trailing_zeros()` and
+    `s = modulus >> k` (0 when `k = BITS`), `s.inv_mod2k(k).expect("inverse mod 2^k exists")` — the option is
+    `some` iff `k = 0` or `s` is odd -/
+def invModExpectOldD (w m : Nat) : Chk Unit :=
+  let k := tzW w m
+  let s := if k < w then m / 2 ^ k else 0
+  check (k == 0 || s % 2 == 1) "inverse mod 2^k exists"
 
-/-- `BoxedUint::inv_mod`: `debug_assert_eq!(self.bits_precision(), modulus.bits_precision())` -/
-def boxedInvModPrecisionD (p : Profile) (selfLimbs modLimbs : Nat) : Chk Unit :=
+/-- AFTER the fix: `s.inv_mod2k(k).unwrap_or(Self::ZERO)` — nothing is unwrapped -/
+def invModExpectD (_w _m : Nat) : Chk Unit := .ok ()
+
+/-- `Uint::inv_mod2k_vartime(k)` BEFORE fix 8dd1192: round `i` of `while i < k` does
+    `Uint::from_word(x_i).overflowing_shl_vartime(i).expect("shift within range")`, which is `none` for
+    `i ≥ BITS`.  `fuel = k - i`. -/
+def invMod2kVartimeOldD (w : Nat) : Nat → Nat → Chk Unit
+  | 0, _ => .ok ()
+  | fuel + 1, i => do
+    check (decide (i < w)) "shift within range"
+    invMod2kVartimeOldD w fuel (i + 1)
+
+/-- AFTER the fix: `.unwrap_or(Self::ZERO)` — rounds beyond `BITS` contribute nothing -/
+def invMod2kVartimeD (_w _k : Nat) : Chk Unit := .ok ()
+
+/-- `BoxedUint::inv_mod` BEFORE fix fb50dbc: `debug_assert_eq!(self.bits_precision(), modulus.bits_precision())` -/
+def boxedInvModPrecisionOldD (p : Profile) (selfLimbs modLimbs : Nat) : Chk Unit :=
   dassert p (selfLimbs == modLimbs) "inv_mod: precision mismatch"
+
+/-- AFTER the fix: `assert_eq!` in both builds -/
+def boxedInvModPrecisionD (_p : Profile) (selfLimbs modLimbs : Nat) : Chk Unit :=
+  check (selfLimbs == modLimbs) "inv_mod: precision mismatch"
+
+/-- `BoxedUint::from_be_hex`: limb count of the result. BEFORE fix 01d03c6 `Self { limbs: res.into() }` with
+    `res.len() = bits_precision / 64` (zero limbs for a precision below 64) -/
+def boxedFromBeHexLimbsOld (bitsPrecision : Nat) : Nat := bitsPrecision / 64
+/-- AFTER: `Self::from(res)` pads an empty vector to one limb -/
+def boxedFromBeHexLimbs (bitsPrecision : Nat) : Nat :=
+  if bitsPrecision / 64 = 0 then 1 else bitsPrecision / 64
 
 /-! ### the panic table: what the DOCUMENTATION says (transcribed from the doc comments) -/
 
